@@ -90,6 +90,7 @@ added = {
  "C22-r8": "SCMP replies: on every accepted path a fault (one bit of the last MAC byte, which leaves the accumulator chain intact) is planted at every hop field that starts or ends a segment; the error reply raised by the real router is walked back through the real routers under the same accumulator oracle and must reach the source",
  "C35-r8": "structure of the vote list: 7 malformed vote structures per update (one voter repeated, duplicate vote, below quorum, vote without signature, root certificate voting, regular voters on a sensitive update, index out of range) through NotifyTRC and SignedTRC.Verify, and as a fault kind in the catch-up search",
  "C39-r8": "secret values and level-1 keys for 11 (thorough 22) niche protocol ids that exercise both bytes of the 16-bit field (congruent mod 256 to Generic/SCMP and to each other, byte-swapped pairs, 0x00ff/0xff00/0x8000/0xffff) against the clean-room derivation and in the pairwise domain-separation comparison",
+ "C36-r9": "sub-second clock positions around every signer expiry (-1 s, -1 ms, -1 ns, the instant, +1 ns, +1 ms, +500 ms, +999 ms, +1 s, +1.5 s) instead of whole seconds before / after",
  "C02-r5": "every simulated router recycles one packet object for all packets it processes (pool-style reset), so state left behind by one packet meets the next",
  "C14-r5": "sibling links sharing the internal socket (UDPCanReuseLocal false): receive loop demultiplexes by source address",
  "C48-r4": "rings pre-filled and pre-drained to every fill level / index position before the concurrent phase",
@@ -134,7 +135,7 @@ Two sources of breakage were used; nothing below was ever committed to `/repo`.
    (Rounds 6 and 7 were partial rounds on 18 properties each - the ones with the most earlier misses, then the next
    group; for C29 (round 6) and C35 (round 7) the seeding agents found no change that breaks the property and keeps the
    repository's own tests green. Round 8 went to the 14 properties that had only five seeds so far, one fresh agent per
-   property.)
+   property; round 9 was a short round on six control-plane / PKI properties with many earlier misses.)
 
 What the misses had in common - and what the extensions therefore added - were dimensions of *identity* (same AS
 number in another ISD, AS-local interface numbers, stream ids differing in high bits, permuted certificate order),
